@@ -20,11 +20,8 @@ Fixpoint t_set (k : bytes) (v : service) (t : table) : table :=
   | [] => [(k, v)]
   | (k', v') :: r => if bytes_eqb k k' then (k', v) :: r else (k', v') :: t_set k v r
   end.
-Fixpoint t_del (k : bytes) (t : table) : table :=
-  match t with
-  | [] => []
-  | (k', v') :: r => if bytes_eqb k k' then r else (k', v') :: t_del k r
-  end.
+(* del d[k]: keys are unique in a dict, so removing every entry with that key is the same thing *)
+Definition t_del (k : bytes) (t : table) : table := filter (fun kv => negb (bytes_eqb k (fst kv))) t.
 Definition t_values (t : table) : list service := map snd t.
 
 (* same MetadataVersion: longer XAddrs win, scopes / types are taken over when present
@@ -61,6 +58,11 @@ Inductive out :=
 | OProbeMatch (s : service) | OResolveMatch (s : service) | OResolve (epr : bytes).
 
 Record dstate := mkD { remote : table; local : table }.
+
+(* _send_hello never sets payload.MetadataVersion: every Hello announces the default version 1, whatever
+   metadata_version the published service has (ProbeMatch / ResolveMatch carry the real one) *)
+Definition hello_of (s : service) : service :=
+  mkService (s_epr s) (s_types s) (s_scopes s) (s_xaddrs s) 1 (s_iid s).
 
 Definition with_iid (iid : Z) (s : service) : service :=
   mkService (s_epr s) (s_types s) (s_scopes s) (s_xaddrs s) (s_mdv s) iid.
@@ -151,7 +153,7 @@ Section Handle.
     | EPublish epr types scopes xaddrs iid =>
         let mdv := match t_get epr (local (disc n)) with Some k => s_mdv k + 1 | None => 1 end in
         let s := mkService epr types scopes xaddrs mdv iid in
-        let os := [OHello s] in
+        let os := [OHello (hello_of s)] in
         (mkNode (mkD (remote (disc n)) (t_set epr s (local (disc n))))
                 (send_all (kn_ids n) (length (sent n)) os) (sent n ++ os), os)
     | EClear epr =>
